@@ -22,7 +22,9 @@ EXTENDS Naturals, Integers, Sequences, FiniteSets
 CONSTANTS MainProg, IsrProg, AQDepth, EQDepth, SPeriod, Discipline, MaxNest,
           LoopForever, \* TRUE: after the last entry of MainProg the main loop keeps calling fibre_scheduler_next with the same time (liveness configurations)
           FastPathChecksAtomicQ,  \* TRUE (the code): the single-yielder fast path is not taken while an atomic request is pending; FALSE only in the vacuity configuration
-          Sleeper     \* TRUE: the sleeping fibre S is started; FALSE: Y is the only runnable fibre (single-yielder fast path)
+          Sleeper,    \* TRUE: the sleeping fibre S is started; FALSE: Y is the only runnable fibre (single-yielder fast path)
+          SRun        \* TRUE: every time S is dispatched it first calls fibre_run(H) (a drain of the interrupt-safe queue in the
+                      \* middle of its own dispatch), and only then asks for its timeout
 
 H == 1
 Y == 2
@@ -76,7 +78,7 @@ Dispatch(g, m0) ==
   LET mm == IF m0.current = 0 THEN m0 ELSE [m0 EXCEPT !.ndisp = (@ + 1) % 2] IN   \* ndisp toggles at every dispatch (ghost; at most one dispatch per step)
   CASE mm.current = 0 -> [mm EXCEPT !.pc = "Wake"]
     [] mm.current = Y -> EndPass(g, [mm EXCEPT !.kstate = "yielded"], mm.now)      \* yielded: return kernel.now at once
-    [] mm.current = S -> SBody(g, mm)
+    [] mm.current = S -> IF g.srun THEN [mm EXCEPT !.pc = "Drain", !.site = "srun"] ELSE SBody(g, mm)
     [] mm.current = H -> [mm EXCEPT !.pc = "HRecv"]
 (* handle_timerq + get_next_task + dispatch *)
 AfterUpdate(g, mm) ==
@@ -92,6 +94,8 @@ AfterDrain(g, mm) ==
     THEN IF mm.current # 0 /\ mm.kstate = "yielded"
            THEN [mm EXCEPT !.pc = "Drain", !.site = "yieldrun"]          \* update_current_state: fibre_run(current) drains first
            ELSE AfterUpdate(g, mm)
+    ELSE IF mm.site = "srun"
+    THEN SBody(g, MakeRunnable(mm, H))                                      \* S's own fibre_run(H): drained, H queued; now fibre_timeout
     ELSE AfterUpdate(g, MakeRunnable(mm, mm.current))                       \* ... then queues the yielder
 
 M0(g) == [pc |-> "x", site |-> "pass", k |-> 1, now |-> 0, slot |-> 0, runq |-> IF g.sleeper THEN <<Y, S>> ELSE <<Y>>, timerq |-> <<>>, wake |-> 0,
@@ -100,7 +104,7 @@ M0(g) == [pc |-> "x", site |-> "pass", k |-> 1, now |-> 0, slot |-> 0, runq |-> 
 Start(g) ==
   [m |-> PassStart(g, M0(g)), aq |-> QAt(AQDepth, g.aqstart), eq |-> QAt(g.eqd, g.eqstart),
    isr |-> [i \in 1..Len(g.isr) |-> [pc |-> IF g.isr[i].k = "run" THEN "RDec" ELSE "EDec", sp |-> 0, slot |-> -1]]]
-Cfg0 == [main |-> MainProg, isr |-> IsrProg, eqd |-> EQDepth, period |-> SPeriod, sleeper |-> Sleeper, eqstart |-> 0, aqstart |-> 0]
+Cfg0 == [main |-> MainProg, isr |-> IsrProg, eqd |-> EQDepth, period |-> SPeriod, sleeper |-> Sleeper, eqstart |-> 0, aqstart |-> 0, srun |-> SRun]
 Init ==
   /\ cfg = Cfg0
   /\ m = Start(Cfg0).m /\ aq = Start(Cfg0).aq /\ eq = Start(Cfg0).eq /\ isr = Start(Cfg0).isr
